@@ -52,4 +52,129 @@ theorem objRun_consts {I O : Type} {e : EntryRow} {b : ObjBeh I O} (hr : ObjResp
     simp only [objRun]
     rw [h1, h2]
 
+/-! ## Small-step calls -/
+
+theorem oAgree_oSet {fs : List OField} {s s' : OState} (h : OAgree fs s s') (f : OField) (v : Int) :
+    OAgree fs (oSet s f v) (oSet s' f v) := by
+  intro g hg
+  simp only [OV.C14.oSet]
+  split
+  · rfl
+  · exact h g hg
+
+theorem oAgree_oSet_cons {fs : List OField} {s s' : OState} (h : OAgree fs s s') (f : OField) (v : Int) :
+    OAgree (f :: fs) (oSet s f v) (oSet s' f v) := by
+  intro g hg
+  simp only [OV.C14.oSet]
+  split
+  · rfl
+  · rename_i hne
+    rcases List.mem_cons.1 hg with e | hm
+    · exact absurd e hne
+    · exact h g hm
+
+/-- a disciplined call never changes an `__init__`-only field, wherever it stops -/
+theorem Prog.run_consts {O : Type} (consts : List OField) (p : Prog O) :
+    ∀ (wr : List OField), p.Disc consts wr → ∀ s, OAgree consts s (p.run s).1 := by
+  induction p with
+  | ret o => intro _ _ s f _; rfl
+  | raise e => intro _ _ s f _; rfl
+  | read f k ih => intro wr hd s; exact ih (s f) wr (hd.2 (s f)) s
+  | write f v k ih =>
+    intro wr hd s g hg
+    have h := ih (f :: wr) hd.2 (oSet s f v) g hg
+    simp only [Prog.run]
+    rw [← h]
+    have hne : g ≠ f := fun e => hd.1 (e ▸ hg)
+    simp only [OV.C14.oSet, hne, if_false]
+
+/-- **Key lemma**: the outcome of a disciplined call is the same from any two object states that agree
+on the `__init__`-only fields and on the fields this call has assigned so far. -/
+theorem Prog.run_indep {O : Type} (consts : List OField) (p : Prog O) :
+    ∀ (wr : List OField), p.Disc consts wr → ∀ s s', OAgree consts s s' → OAgree wr s s' →
+      (p.run s).2 = (p.run s').2 := by
+  induction p with
+  | ret o => intro _ _ _ _ _ _; rfl
+  | raise e => intro _ _ _ _ _ _; rfl
+  | read f k ih =>
+    intro wr hd s s' hc hw
+    have hf : s f = s' f := by
+      rcases hd.1 with h | h
+      · exact hc f h
+      · exact hw f h
+    simp only [Prog.run]
+    rw [← hf]
+    exact ih (s f) wr (hd.2 (s f)) s s' hc hw
+  | write f v k ih =>
+    intro wr hd s s' hc hw
+    exact ih (f :: wr) hd.2 _ _ (oAgree_oSet hc f v) (oAgree_oSet_cons hw f v)
+
+/-- an exception at any point of a disciplined call leaves a disciplined (shorter) call -/
+theorem Prog.cut_disc {O : Type} (consts : List OField) (e : Int) (n : Nat) :
+    ∀ (p : Prog O) (wr : List OField), p.Disc consts wr → (p.cut e n).Disc consts wr := by
+  induction n with
+  | zero => intro p wr _; cases p <;> exact True.intro
+  | succ n ih =>
+    intro p wr hd
+    cases p with
+    | ret o => exact True.intro
+    | raise x => exact True.intro
+    | read f k => exact ⟨hd.1, fun v => ih (k v) wr (hd.2 v)⟩
+    | write f v k => exact ⟨hd.1, ih k (f :: wr) hd.2⟩
+
+theorem faultRun_consts {I O : Type} (consts : List OField) (body : I → Prog O)
+    (hd : ∀ i, (body i).Disc consts []) (s : OState) (H : List (I × Option Nat)) :
+    OAgree consts s (faultRun body s H) := by
+  induction H generalizing s with
+  | nil => intro f _; rfl
+  | cons c H ih =>
+    obtain ⟨i, n⟩ := c
+    intro f hf
+    cases n with
+    | none =>
+      simp only [faultRun]
+      rw [← ih _ f hf]
+      exact Prog.run_consts consts (body i) [] (hd i) s f hf
+    | some n =>
+      simp only [faultRun]
+      rw [← ih _ f hf]
+      exact Prog.run_consts consts _ [] (Prog.cut_disc consts (-1) n (body i) [] (hd i)) s f hf
+
+/-- every trace of a disciplined call passes the monitor's check -/
+theorem Prog.trace_ok {O : Type} (consts : List OField) (p : Prog O) :
+    ∀ (wr : List OField), p.Disc consts wr → ∀ s, traceOk consts wr (p.trace s) = true := by
+  induction p with
+  | ret o => intro _ _ _; rfl
+  | raise e => intro _ _ _; rfl
+  | read f k ih =>
+    intro wr hd s
+    simp only [Prog.trace, traceOk, Bool.and_eq_true, Bool.or_eq_true, List.contains_iff_mem]
+    exact ⟨hd.1, ih (s f) wr (hd.2 (s f)) s⟩
+  | write f v k ih =>
+    intro wr hd s
+    simp only [Prog.trace, traceOk, Bool.and_eq_true, Bool.not_eq_true', List.contains_eq_mem,
+      decide_eq_false_iff_not]
+    exact ⟨hd.1, ih (f :: wr) hd.2 _⟩
+
+theorem Prog.writes_not_const {O : Type} (consts : List OField) (p : Prog O) :
+    ∀ (wr : List OField), p.Disc consts wr → ∀ s q, q ∈ p.writes s → q.1 ∉ consts := by
+  induction p with
+  | ret o => intro _ _ _ q hq; simp [Prog.writes] at hq
+  | raise e => intro _ _ _ q hq; simp [Prog.writes] at hq
+  | read f k ih => intro wr hd s q hq; exact ih (s f) wr (hd.2 (s f)) s q hq
+  | write f v k ih =>
+    intro wr hd s q hq
+    simp only [Prog.writes, List.mem_cons] at hq
+    rcases hq with e | hq
+    · subst e; exact hd.1
+    · exact ih (f :: wr) hd.2 _ q hq
+
+/-- the big-step view is the small-step one: applying the recorded assignments gives the final state -/
+theorem Prog.oApply_writes {O : Type} (p : Prog O) : ∀ s, oApply (p.writes s) s = (p.run s).1 := by
+  induction p with
+  | ret o => intro s; rfl
+  | raise e => intro s; rfl
+  | read f k ih => intro s; exact ih (s f) s
+  | write f v k ih => intro s; exact ih (oSet s f v)
+
 end OV.C14
